@@ -148,11 +148,110 @@ func pinnedGoCallByParam(r *harness.Run) {
 				}
 			}()
 			sig := fmt.Sprintf("goapi/callbyparam-args-overflow/n=%d/registry=%d", n, limit)
-			r.Eval(sig, true, func() interface{} { return map[string]interface{}{"case": "protected CallByParam", "arguments": n, "registry": limit} })
+			r.Eval(sig, true, func() interface{} {
+				return map[string]interface{}{"case": "protected CallByParam", "arguments": n, "registry": limit}
+			})
 			if problem != "" {
 				r.Violation("goapi/callbyparam-args-overflow", fmt.Sprintf("%d arguments, registry %d: %s", n, limit, problem), map[string]interface{}{"arguments": n, "registry": limit})
 			}
 			L.Close()
+		}
+	}
+}
+
+// overflowHistory — "afterwards the interpreter is as if the protected call had returned normally
+// ... and all later behaviour": after every history of up to two handled errors (pcall, xpcall
+// with a handler that returns / that itself raises, Go-side PCall with and without handler, an
+// error inside a coroutine, a handled call-stack overflow), a call-stack overflow is provoked
+// under xpcall; the recursion depth reached, the delivered value and the number of handler runs
+// must be exactly those of a fresh state — on the main thread and inside a coroutine, for the
+// fixed and the auto-growing call stack.
+func overflowHistory(r *harness.Run) {
+	steps := map[string]string{
+		"pcall":          `pcall(error, "e")`,
+		"xpcall-ok":      `xpcall(function() error("e") end, function(m) return "h" end)`,
+		"xpcall-hfails":  `xpcall(function() error("e") end, function(m) error("in handler") end)`,
+		"xpcall-fault":   `xpcall(function() local x = nil + 1 end, function(m) return "h" end)`,
+		"gopcall":        `gopcall(function() error("e") end)`,
+		"gopcall-h":      `gopcallh(function() error("e") end)`,
+		"gopcall-hfails": `gopcallhf(function() error("e") end)`,
+		"coroutine":      `coroutine.resume(coroutine.create(function() xpcall(function() error("e") end, function(m) return "h" end) error("x") end))`,
+		"overflow":       `xpcall(function() local function r() return 1 + r() end return r() end, function(m) return "h" end)`,
+	}
+	names := []string{"pcall", "xpcall-ok", "xpcall-hfails", "xpcall-fault", "gopcall", "gopcall-h", "gopcall-hfails", "coroutine", "overflow"}
+	probe := `local depth, n = 0, 0
+local function r() depth = depth + 1 return 1 + r() end
+local ok, m = xpcall(r, function(m) n = n + 1 return "H" end)
+return depth, tostring(ok), tostring(m), n`
+	for _, opts := range []lua.Options{{CallStackSize: 64}, {CallStackSize: 64, MinimizeStackMemory: true}, {}} {
+		for _, where := range []string{"main", "coroutine"} {
+			run := func(hist []string) string {
+				L := lua.NewState(opts)
+				defer L.Close()
+				mk := func(handler int) lua.LGFunction {
+					return func(L *lua.LState) int {
+						var h *lua.LFunction
+						switch handler {
+						case 1:
+							h = L.NewFunction(func(L *lua.LState) int { L.Push(lua.LString("gh")); return 1 })
+						case 2:
+							h = L.NewFunction(func(L *lua.LState) int { L.RaiseError("go handler fails"); return 0 })
+						}
+						L.Push(L.Get(1))
+						err := L.PCall(0, 0, h)
+						L.Push(lua.LBool(err == nil))
+						return 1
+					}
+				}
+				L.SetGlobal("gopcall", L.NewFunction(mk(0)))
+				L.SetGlobal("gopcallh", L.NewFunction(mk(1)))
+				L.SetGlobal("gopcallhf", L.NewFunction(mk(2)))
+				src := ""
+				for _, h := range hist {
+					src += steps[h] + "\n"
+				}
+				src += probe
+				if where == "coroutine" {
+					src = "local co = coroutine.create(function()\n" + src + "\nend)\nreturn select(2, coroutine.resume(co))"
+				}
+				res := ""
+				func() {
+					defer func() {
+						if rec := recover(); rec != nil {
+							res = fmt.Sprintf("GO PANIC: %v", rec)
+						}
+					}()
+					if err := L.DoString(src); err != nil {
+						res = "ERROR: " + err.Error()
+						return
+					}
+					var parts []string
+					for i := 1; i <= L.GetTop(); i++ {
+						parts = append(parts, L.Get(i).String())
+					}
+					res = strings.Join(parts, "|")
+				}()
+				return res
+			}
+			base := run(nil)
+			cfg := fmt.Sprintf("css=%d/minstack=%v/%s", opts.CallStackSize, opts.MinimizeStackMemory, where)
+			var hists [][]string
+			for _, a := range names {
+				hists = append(hists, []string{a})
+				for _, b := range names {
+					hists = append(hists, []string{a, b})
+				}
+			}
+			for _, h := range hists {
+				got := run(h)
+				sig := "overflow-after/" + strings.Join(h, ",")
+				r.Eval(sig+"/"+cfg, true, func() interface{} {
+					return map[string]interface{}{"case": "call-stack overflow after a history of handled errors", "history": h, "configuration": cfg, "fresh_state_gives": base}
+				})
+				if got != base {
+					r.Violation(sig, fmt.Sprintf("%s: after %v the overflow probe gives (depth|ok|value|handler runs) = %s, a fresh state gives %s", cfg, h, got, base), map[string]interface{}{"history": h, "configuration": cfg})
+				}
+			}
 		}
 	}
 }
